@@ -111,6 +111,17 @@ def make_call(cls, k):
         a = Meter ** k
         f = {Meter: k, Second: 1}
         return lambda: a * Second, lambda: len([u for u in Unit._known.values() if getattr(u, "factors", None) == f and u.prefix is IdentityPrefix])
+    if cls in ("UnitMulOrders", "UnitDivOrders"):
+        # different expressions denoting one new unit, evaluated at the same time: a*b | b*a, a/b | b**-1 * a
+        base1 = Dimension._by_name["length"].unit(f"vfo{k}a", f"vfo{k}a"); base2 = Dimension._by_name["time"].unit(f"vfo{k}b", f"vfo{k}b")
+        if cls == "UnitMulOrders":
+            f = {base1: 1, base2: 1}
+            calls = [lambda: base1 * base2, lambda: base2 * base1, lambda: base1 * base2]
+        else:
+            f = {base1: 1, base2: -1}
+            inv = base2 ** -1
+            calls = [lambda: base1 / base2, lambda: inv * base1, lambda: base1 * inv]
+        return calls, lambda: len([u for u in Unit._known.values() if getattr(u, "factors", None) == f and u.prefix is IdentityPrefix])
     raise ValueError(cls)
 
 def run_case(case):
@@ -123,7 +134,7 @@ def run_case(case):
     def body(i):
         sys.settrace(S.tracer(i))
         try:
-            results[i] = call()
+            results[i] = (call[i % len(call)] if isinstance(call, list) else call)()
         except BaseException as ex:  # noqa
             errors[i] = implib.errclass(ex) + ":" + str(ex)[:100]
         finally:
@@ -144,7 +155,7 @@ def run_case(case):
             S.step(i)
     for t in ths: t.join(2)
     objs = [r for r in results if r is not None]
-    later = call()
+    later = (call[0] if isinstance(call, list) else call)()
     return {"same": len({id(o) for o in objs}) == 1 and len(objs) == n,
             "distinct_objects": len({id(o) for o in objs}),
             "later_same": bool(objs) and all(later is o for o in objs),
